@@ -59,3 +59,14 @@ Theorem C05_number_plus_pointer_before_fix_refuted :
   ptr_arith [r] false (2^44 + 65528) 3 4 = Abort /\
   radd_before_fix 0 5 8 = Ok 40 /\ ptr_arith [r] false 0 5 4 = Abort.
 Proof. exact radd_before_fix_refuted. Qed.
+
+(* the number is an integer held in SANDBOX memory: one read decides both the containment check and the address; a variant
+   that checks the address computed from the first read and returns the one computed from a second read is refuted *)
+Theorem C05_operand_in_sandbox_memory : forall l s sub p f stride t,
+  world_ok l -> In s l -> inr s p = true -> ptr_arith_cell l sub p f stride = Ok t -> inr s t = true.
+Proof. exact ptr_arith_cell_never_outside. Qed.
+Print Assumptions C05_operand_in_sandbox_memory.
+Theorem C05_operand_refetch_refuted :
+  exists f t, world_ok [demo_region] /\ inr demo_region (2^44 + 64) = true /\
+    ptr_arith_cell_refetch [demo_region] false (2^44 + 64) f 4 = Ok t /\ inr demo_region t = false.
+Proof. exact ptr_arith_cell_refetch_escapes. Qed.
